@@ -26,6 +26,11 @@ Generator grammar over an INDEPENDENT reading of the schema XML (rt/c01_schema.p
       members of repeated groups; the unique / Def / Def-expand mutations are generated in every spelling of the tag name
       with siblings between the copies.
   part "witness": fixed minimal inputs for the narrow clauses (defects seen at design time) and their neighbours.
+  part "values" (rt/c01_values.py): the lexical rule of each value class on EVERY short string: all strings of length <= 4
+      (thorough: 5) over '05+-.eEx ' as the value of a numeric tag without units, of a unit tag with its unit and of Duration
+      inside its group -- accepted iff the text is a number (sign, mantissa with at least one digit, exponent), VALUE_INVALID
+      otherwise; all strings of length <= 3 (4) over small alphabets for nameClass / textClass (CHARACTER_INVALID); every
+      single-character edit of five well-formed date-times (VALUE_INVALID).  Run with 8.3.0 and 8.2.0 (thorough: also 8.0.0).
 
 Every case is run with allow_placeholders False and True.  Oracle: the rule -> code table of the property text
 (valid => no error-severity issue; one injected violation => the rule's code is among the error codes).
@@ -1103,6 +1108,9 @@ def _task(args):
     extra = {}
     if part == "witness":
         n = part_witness(w, run, model, vocab, defs)
+    elif part == "values":
+        from rt.c01_values import part_values
+        n, run.counts, extra["bounds"] = part_values(w, env, model, defs["strings"], chunk, nchunks)
     elif part == "vocabulary":
         n = part_vocabulary(w, run, model, vocab, defs, chunk, nchunks)
     else:
@@ -1121,20 +1129,26 @@ def run(w: Workload):
     import multiprocessing
     w.rule = ("vocabulary sweep: one case per (schema version, tag, spelling, construct[, value, unit]) and per tag-level "
               "single-rule mutation of it; grammar: one case per (forest shape, filling, special group) and per (mutation, "
-              "position); each with allow_placeholders in {False, True}; cases are distinct by (version, text, flag)")
+              "position); values: one case per (schema version, value-class tag template, value string) over all short strings of a "
+              "small alphabet; each with allow_placeholders in {False, True}; cases are distinct by (version, text, flag)")
     versions = ["8.3.0"] if w.quick else ["8.3.0", "8.2.0", "8.0.0"]
-    for v in versions:
+    value_versions = ["8.3.0", "8.2.0"] if w.quick else versions      # the lexical value rules also under an older schema
+    for v in value_versions:
         schema(v)                       # load (and seed the cache) once, before forking
     vchunks, gchunks = (4, 4) if w.quick else (5, 8)
+    xchunks = 3 if w.quick else 8
     tasks = []
-    for v in versions:
-        tasks += [(w.tier, w.seed, v, "witness", 0, 1)]
-        tasks += [(w.tier, w.seed, v, "grammar", c, gchunks) for c in range(gchunks)]
-        tasks += [(w.tier, w.seed, v, "vocabulary", c, vchunks) for c in range(vchunks)]
+    for v in value_versions:
+        if v in versions:
+            tasks += [(w.tier, w.seed, v, "witness", 0, 1)]
+            tasks += [(w.tier, w.seed, v, "grammar", c, gchunks) for c in range(gchunks)]
+            tasks += [(w.tier, w.seed, v, "vocabulary", c, vchunks) for c in range(vchunks)]
+        tasks += [(w.tier, w.seed, v, "values", c, xchunks) for c in range(xchunks)]
+    versions = value_versions
     ctx = multiprocessing.get_context("fork")
     with ctx.Pool(min(14, len(tasks))) as pool:
         results = pool.map(_task, tasks, chunksize=1)
-    order = ["witness", "vocabulary", "grammar"]
+    order = ["witness", "vocabulary", "grammar", "values"]
     results.sort(key=lambda r: (versions.index(r["version"]), order.index(r["part"]), r["chunk"]))
     agg = {}
     for r in results:
@@ -1149,6 +1163,7 @@ def run(w: Workload):
         a = agg.setdefault((r["version"], r["part"]), {"cases": 0, "counts": {}, "shapes": 0})
         a["cases"] += r["cases"]
         a["shapes"] = max(a["shapes"], r["extra"].get("shapes", 0))
+        a.setdefault("bounds", {}).update(r["extra"].get("bounds", {}))
         for k, n in r["counts"].items():
             a["counts"][k] = a["counts"].get(k, 0) + n
     w.samples = w.samples[:8]
@@ -1157,6 +1172,10 @@ def run(w: Workload):
         if part == "witness":
             w.part("witness[%s]" % version, cases=a["cases"], bound="fixed list of minimal inputs for the narrow clauses "
                    "and their passing neighbours", exhaustive=True, per_clause=a["counts"])
+        elif part == "values":
+            w.part("values[%s]" % version, cases=a["cases"],
+                   bound="; ".join("%s: %s" % (k, a["bounds"][k]) for k in sorted(a["bounds"])),
+                   exhaustive=True, per_clause=a["counts"])
         elif part == "vocabulary":
             w.part("vocabulary[%s]" % version, cases=a["cases"],
                    bound="every non-deprecated tag of HED%s.xml x every spelling (short, each partial path, long, 2 case "
@@ -1177,6 +1196,8 @@ def run(w: Workload):
         "unit classes no tag uses (currency '$' prefix units, memory size, electric potential, magnetic field)",
         "row/file level rules (Onset/Offset ordering, sidecar placeholder counts) and Definition declarations themselves",
         "grammar part is sampled: atoms are drawn at random from the vocabulary (all tags are covered by the sweep part only in small contexts)",
+        "value strings longer than the bound of the values part or over other characters than its alphabets (digits 0 and 5 stand "
+        "for all digits, x for all letters); non-ASCII values under schemas before 8.3.0",
         "non-ASCII letters inside tag names; values containing '/', parentheses or commas; characters of extension names "
         "(hed-python accepts . + ^ and blank there); units whose name contains a blank ('degree Celsius' in 8.1/8.2)",
         "the number of issues per violation (only: valid => none, one violation => the rule's code is present)",
@@ -1203,7 +1224,10 @@ def replay(w: Workload, case: dict):
         w.fail(CL_ENTRY, inp, observed=exc, expected="no exception")
         return
     exp = case.get("expected")
-    if isinstance(exp, dict) and "contains_one_of" in exp:
+    if isinstance(exp, dict) and exp.get("nonempty"):
+        if errs == []:
+            w.fail(clause, inp, observed=errs, expected=exp)
+    elif isinstance(exp, dict) and "contains_one_of" in exp:
         if not any(c in errs for c in exp["contains_one_of"]) or (exp.get("contains") and exp["contains"] not in errs):
             w.fail(clause, inp, observed=errs, expected=exp)
     elif errs != []:
